@@ -33,6 +33,9 @@ CHECKS = {
  "C05": (EX, "small-scope exhaustive enumeration of kriging set-ups (variant x model x coordinate configuration x all k-subsets of a point pool x option product) against an independent dense solution of the documented kriging system",
          "Every enumerated kriging system (8 variants incl. custom/quadratic/external drifts and drift without unbiasedness; dim 1-3, 2D+time, lat-lon, lat-lon+time; isotropic and anisotropic/rotated; exact x measurement-error kinds x pseudo-inverse types) is solved by the library and by numpy.linalg on a system assembled from the definition with oracle covariances and oracle coordinate transforms; weights (unit data vectors), constants, drift reproduction, chunk sizes, mesh types, all permutations of up to 4 data / 4 targets, mean / trend / normalizer pipelines, get_mean and only_mean are compared.",
          "conditioning sets of at most 5 points; cond(K) > 1e10 skipped (counted); tolerance scaled by cond(K)", "5/C05"),
+ "C06": (EX, "small-scope exhaustive enumeration of the C05 kriging space restricted to zero measurement error, evaluated at the conditioning locations, plus every way of duplicating one or two conditioning points of every layout",
+         "For every enumerated set-up (variants x models x coordinate configurations x layouts x nugget-free / exact mode x mean-trend-normalizer x pseudo-inverse type) the field and variance at the conditioning points, the sign of the unclipped reference variance, the simple-kriging bound by the sill and the equality with the clipped reference variance are checked; duplicated layouts (all single and pair duplications with different values, pinv and pinvh) are compared with the de-duplicated layout carrying the mean value.",
+         "conditioning sets of at most 5 (+2 duplicated) points; singular de-duplicated systems skipped by a counted guard; duplicates only for nugget-free systems (with a nugget the system is regular and coincident points are separate noisy measurements)", "5/C06"),
 }
 PENDING = {}
 def main():
